@@ -22,7 +22,7 @@ META = {
     "technique": "single-source differential execution Wa vs Go + Lean 4 specifications/theorems for codecs, bits, hashes, integer conversion, sorting",
 }
 
-VOLUME = {"quick": {"rand": 8, "cap": 90, "deadline": 120}, "thorough": {"rand": 60, "cap": 600, "deadline": 300}}
+VOLUME = {"quick": {"rand": 8, "cap": 90, "deadline": 60}, "thorough": {"rand": 60, "cap": 600, "deadline": 300}}
 MAX_SRC = 260000          # bytes of generated source per program (Wa compiles the imported packages once per program)
 
 
@@ -277,6 +277,13 @@ def arg_class(sec, args):
         parts.append("y-top-bit-set" if args[2] >> (bits - 1) else "y-top-bit-clear")
     if texts:
         parts.insert(0, text_class(texts))
+    size = max([len(t) for t in texts] or [0])
+    if key.endswith("Repeat.large"):
+        size = len(args[0]) * args[1]
+    if key.endswith(".grow"):
+        size = args[1]
+    if size >= 4096:
+        parts.append("large")                    # the sizes where algorithms switch strategy (chunking, search cut-overs, growth)
     return "+".join(parts) if parts else "any"
 
 
@@ -326,7 +333,7 @@ def custom_class(sec, args, go, wa):
 
 def enc_arg(v):
     if isinstance(v, bytes):
-        return "x:" + v.hex()
+        return "x:" + bytes(v).hex()
     if isinstance(v, (list, tuple)):
         return [enc_arg(x) for x in v]
     return v
@@ -349,14 +356,16 @@ def load_corpus():
         for f in sorted(os.listdir(d)):
             if f.endswith(".json"):
                 for e in json.load(open(os.path.join(d, f))):
-                    out.setdefault(e["function"], []).append(tuple(dec_arg(a) for a in e["args"]))
+                    out.setdefault(e["function"], []).append((tuple(dec_arg(a) for a in e["args"]), e.get("position") == "last"))
     return out
 
 
 def show_args(sec, args):
     out = []
     for kind, v in zip(sec.kinds, args):
-        if isinstance(v, bytes):
+        if isinstance(v, D.BigStr):
+            out.append("%s /* %d bytes */" % (D.go_str(v), len(v)))
+        elif isinstance(v, bytes):
             out.append(D.go_str(v) if len(v) <= 80 else D.go_str(v[:60]) + "...(%d bytes)" % len(v))
         elif kind == "f64":
             out.append("float64frombits(0x%016x)" % v)
@@ -368,11 +377,29 @@ def show_args(sec, args):
     return "(" + ", ".join(out) + ")"
 
 
+def digest_diff(g, w):
+    """first differing 1 KiB block of two dg() tokens"""
+    try:
+        gl, gb = g.split(":")[0], g.split(":")[1].split(",")[1:]
+        wl, wb = w.split(":")[0], w.split(":")[1].split(",")[1:]
+    except Exception:
+        return ""
+    if gl != wl:
+        return " [length %s vs Go %s]" % (wl, gl)
+    for i, (a, b) in enumerate(zip(gb, wb)):
+        if a != b:
+            return " [same length %s, first difference in bytes %d..%d]" % (gl, i * 1024, i * 1024 + 1023)
+    return ""
+
+
 def show_toks(sec, toks):
     if toks is None:
         return "<no output>"
     out = []
     for (expr, tag), t in zip(sec.toks, toks):
+        if tag == "d":
+            out.append("digest(len=%s sum=%s)" % (t.split(":")[0], t.split(":")[-1].split(",")[0]))
+            continue
         if tag in ("s",) and unhex(t) is not None:
             b = unhex(t)
             out.append(D.go_str(b) if len(b) <= 80 else D.go_str(b[:60]) + "...(%d bytes)" % len(b))
@@ -598,10 +625,11 @@ def build_sections(ctx, vol):
     corpus = load_corpus()
     used = 0
     for s in secs + scen:
-        extra = [a for a in corpus.get(s.key, []) if len(a) == len(s.kinds)]
-        if extra:
-            s.calls = extra + [c for c in s.calls if c not in extra]
-            used += len(extra)
+        extra = [a for a, last in corpus.get(s.key, []) if len(a) == len(s.kinds) and not last]
+        tail = [a for a, last in corpus.get(s.key, []) if len(a) == len(s.kinds) and last]     # inputs that stop the program go last
+        if extra or tail:
+            s.calls = extra + [c for c in s.calls if c not in extra and c not in tail] + tail
+            used += len(extra) + len(tail)
     api_notes["corpus_calls"] = used
     return secs + scen, api_notes, sigdiff, both
 
@@ -747,6 +775,8 @@ def run(ctx):
                 else:
                     oc = outcome_class(s, go, wa)
                     what = "%s%s: Wa returns %s; Go returns %s" % (s.key, show_args(s, args), show_toks(s, wa), show_toks(s, go))
+                    if wa is not None and len(wa) == len(go):
+                        what += "".join(digest_diff(g, w) for (e_, tag), g, w in zip(s.toks, go, wa) if tag == "d" and g != w)
                 cc = custom_class(s, args, go, wa)
                 key = "%s:%s" % (s.key, cc) if cc else "%s:%s:%s" % (s.key, oc, ac)
                 keys.setdefault(key, []).append(what)
